@@ -4,51 +4,79 @@
    `run true stream sched` = (result, frames handed to onFrame, bytes consumed, final buffer state); a schedule item
    RReq k is a Read returning min(k, free buffer space, bytes remaining) bytes (so every partition of the stream into
    reads, including zero-byte reads, is a schedule), RIgn k a Read failing with an ignorable error and returning k bytes.
-   The theorems are stated for schedules whose failing reads carry no data (ign_nodata: what net.Conn does); data returned
-   TOGETHER with an ignorable error is kept by the model (and by the code) and parsed at the next successful read - that
-   case is covered by the differential run and the oracle (`wf-ign-data` cases), not by these theorems. *)
+   The theorems hold for EVERY schedule, including failing reads that carry data (io.Reader permits n > 0 together with an
+   error): those bytes stay in the buffer unparsed until the next successful read, so the invariant is "buffer content =
+   unparsed suffix of the bytes received so far".  `settled_after true sched = true` says that no data-carrying failing read
+   came after the last successful read (in particular: every schedule whose failing reads carry no data, and every schedule
+   that ends with a successful read); then the buffer content is the incomplete head of the next block.
+   A Read that is handed an empty slice (full buffer - only reachable through data-carrying failing reads) is modelled as a
+   socket answers it: (0, nil) at once, nothing taken from the connection (Stream.settle). *)
 From Base Require Import Bytes VarNum.
 From Face Require Import GenConsts Stream StreamProofs.
 Open Scope N_scope.
 
 (* Core theorem.  Well-formed = shortest-form T and L, whole block at most MaxNDNPacketSize bytes (wf_block).
    For every list of well-formed blocks - of any length: a run observes a finite prefix of an unbounded stream - and
-   every read schedule, the framer does not fail, the frames handed up are exactly the leading blocks that are
-   complete within the consumed bytes (bs = frames ++ rs: byte-identical, in order, none lost, duplicated, split or
-   merged), and the unread remainder p is a strict prefix of the next block sitting at the front of the buffer. *)
-Theorem framing_exact : forall bs sched, Forall ign_nodata sched -> Forall wf_block bs ->
-  exists frames rs p consumed,
-    run true (concat bs) sched = (SOk, frames, consumed, mkS 0 p) /\
-    bs = frames ++ rs /\ strictpre p rs /\
-    firstn (N.to_nat consumed) (concat bs) = concat frames ++ p.
+   EVERY read schedule, the framer does not fail, the frames handed up are leading blocks of the stream (bs = frames ++ rs:
+   byte-identical, in order, none lost, duplicated, split or merged), the bytes received so far are exactly those frames
+   followed by the buffer content u at the front of the buffer, u is a prefix of the remaining blocks, and - when no
+   data-carrying failing read came after the last successful one - u is a strict prefix of the next block, i.e. the frames
+   are ALL the blocks complete within the received bytes. *)
+Theorem framing_exact : forall bs sched, Forall wf_block bs ->
+  exists frames rs u consumed,
+    run true (concat bs) sched = (SOk, frames, consumed, mkS 0 u) /\
+    bs = frames ++ rs /\
+    firstn (N.to_nat consumed) (concat bs) = concat frames ++ u /\
+    (exists rest, u ++ rest = concat rs) /\
+    (settled_after true sched = true -> strictpre u rs).
 Proof. exact framing_exact_lemma. Qed.
 Print Assumptions framing_exact.
 
-(* Once all bytes have been read, all blocks have been handed up. *)
-Theorem framing_complete : forall bs sched, Forall ign_nodata sched -> Forall wf_block bs ->
+(* The schedules of the earlier, partial statement (failing reads carry no data) are settled ones. *)
+Theorem nodata_schedules_settled : forall sched, Forall ign_nodata sched -> settled_after true sched = true.
+Proof. exact ign_nodata_settled. Qed.
+Print Assumptions nodata_schedules_settled.
+
+(* Once all bytes have been read and a successful read has followed the last data-carrying failing one, all blocks have been
+   handed up. *)
+Theorem framing_complete : forall bs sched, Forall wf_block bs -> settled_after true sched = true ->
   snd (fst (run true (concat bs) sched)) = lenN (concat bs) ->
   fst (fst (fst (run true (concat bs) sched))) = SOk /\ snd (fst (fst (run true (concat bs) sched))) = bs.
 Proof. exact framing_complete_lemma. Qed.
 Print Assumptions framing_complete.
 
-(* Moving the unread bytes to the front never loses part of a block, and the buffer never fills up (a Read is never
-   handed an empty slice): after any run the parse offset is 0, fewer than MaxNDNPacketSize bytes are unread and the
-   write offset is strictly inside the buffer. *)
-Theorem compaction_safe_never_full : forall bs sched, Forall ign_nodata sched -> Forall wf_block bs ->
+(* Moving the unread bytes to the front never loses part of a block, and the buffer never fills up: after any settled run the
+   parse offset is 0, fewer than MaxNDNPacketSize bytes are unread and the write offset is strictly inside the buffer.  (For
+   arbitrary schedules: C04 stream_total - offsets inside the buffer, never a spin.) *)
+Theorem compaction_safe_never_full : forall bs sched, Forall wf_block bs -> settled_after true sched = true ->
   let st := snd (run true (concat bs) sched) in
   tlvOff st = 0 /\ lenN (unread st) < c_MaxNDNPacketSize /\ recvOff st < c_recvBufSize.
 Proof. exact compaction_safe_never_full_lemma. Qed.
 Print Assumptions compaction_safe_never_full.
 
-(* ... and after EVERY iteration of the read loop (the state after any prefix of the schedule): the unparsed bytes are at the
-   front of the buffer, fewer than one packet of them, and at least one whole packet of space is free for the next Read - also when a
-   block boundary falls exactly on the end of the buffer with nothing pending.  (A compaction rule that does not reset the offsets in
-   that situation leaves tlvOff = recvOff = buffer size: every later Read gets an empty slice and the loop spins.) *)
-Theorem every_iteration_leaves_room : forall bs sched k, Forall ign_nodata sched -> Forall wf_block bs ->
+(* ... and after EVERY iteration of the read loop that parses (the state after any settled prefix of the schedule): the unparsed
+   bytes are at the front of the buffer, fewer than one packet of them, and at least one whole packet of space is free for the next
+   Read - also when a block boundary falls exactly on the end of the buffer with nothing pending.  (A compaction rule that does not
+   reset the offsets in that situation leaves tlvOff = recvOff = buffer size: every later Read gets an empty slice and the loop spins.) *)
+Theorem every_iteration_leaves_room : forall bs sched k, Forall wf_block bs -> settled_after true (firstn k sched) = true ->
   let st := snd (run true (concat bs) (firstn k sched)) in
   tlvOff st = 0 /\ lenN (unread st) < c_MaxNDNPacketSize /\ c_MaxNDNPacketSize <= c_recvBufSize - recvOff st.
 Proof. exact every_iteration_leaves_room_lemma. Qed.
 Print Assumptions every_iteration_leaves_room.
+
+(* The full-buffer iteration (only reachable through data-carrying failing reads) on 33 blocks of MaxNDNPacketSize bytes: the
+   buffer fills exactly with 32 unparsed blocks; the next iteration hands up the 32 blocks and frees the buffer; the rest follows. *)
+Theorem full_buffer_settles :
+  let b := mk_block 6 (repeat 1 (N.to_nat 8796)) in
+  let bs := repeat b 33 in
+  lenN b = c_MaxNDNPacketSize /\
+  (let '(r, _, c, st) := run true (concat bs) [RIgn 300000] in (r, c, recvOff st)) = (SOk, c_recvBufSize, c_recvBufSize) /\
+  (let '(r, fr, c, st) := run true (concat bs) [RIgn 300000; RIgn 300000] in (r, frames_eqb fr (repeat b 32), c, recvOff st))
+     = (SOk, true, 290400, 8800) /\
+  (let '(r, fr, c, st) := run true (concat bs) [RIgn 300000; RReq 300000] in (r, frames_eqb fr bs, c, recvOff st))
+     = (SOk, true, 290400, 0).
+Proof. exact full_buffer_settles_lemma. Qed.
+Print Assumptions full_buffer_settles.
 
 (* The decomposition of the core theorem is the one computed by the run-time oracle (split_blocksN), which the
    runner evaluates on the frames observed from the implementation. *)
@@ -107,9 +135,11 @@ Example c11_example :
   let bs := [mk_block 6 [1;2;3]; mk_block 800 (repeat 7 300); mk_block 5 []] in
   Forall wf_block bs /\
   snd (fst (fst (run true (concat bs) (rep_item (RReq 1) 400 [])))) = bs /\
-  snd (fst (fst (run true (concat bs) [RReq 0; RIgn 0; RReq 100000]))) = bs.
+  snd (fst (fst (run true (concat bs) [RReq 0; RIgn 0; RReq 100000]))) = bs /\
+  snd (fst (fst (run true (concat bs) [RIgn 4; RIgn 100; RReq 2; RIgn 100000; RReq 0]))) = bs /\
+  run true (concat bs) [RIgn 4; RIgn 100] = (SOk, [], 104, mkS 0 (firstn 104 (concat bs))).
 Proof.
   split.
   - repeat (apply Forall_cons; [apply mk_block_wf; [vm_compute; reflexivity|vm_compute; discriminate]|]). apply Forall_nil.
-  - split; vm_compute; reflexivity.
+  - repeat split; vm_compute; reflexivity.
 Qed.
